@@ -115,7 +115,9 @@ def stage_runs(ctx):
     x = np.linspace(0.5, 3.0, 24)
     y = 1.7 / x - 0.6 + rng.normal(0, 0.1, size=len(x))
     sig = np.full(len(x), 0.1)
-    ranks = [3, 12] if ctx.quick else [2, 3, 4, 6, 11, 12, 16, nu + 3, na + 2]
+    # rank counts incl. the ones that leave a rank WITHOUT functions in some stage: (P-1)*ceil(N/P) = N (N = 14 uniques: P = 8;
+    # N = 24 functions: P = 7, 9, 13) and P > N
+    ranks = [3, 8, 12, 16] if ctx.quick else [2, 3, 4, 6, 7, 8, 9, 11, 12, 13, 16, nu + 3, na + 2]
     files = {"negloglike_comp%d.dat" % n: nu, "codelen_comp%d_deriv.dat" % n: nu, "derivs_comp%d.dat" % n: nu,
              "codelen_matches_comp%d.dat" % n: na}
     for P in ranks:
